@@ -140,9 +140,8 @@ def body(chk: core.Check):
                     "defaults of required message-typed and repeated fields (the property speaks of scalar fields)"]
     # (1) BSTR
     if chk.only("bstr"):
-        _renamers.check_convert_uri(chk, quick)
-        _renamers.check_http_body(chk, quick)
-        check_path_params(chk, quick)
+        core.parallel_parts(chk, [(_renamers.check_convert_uri, quick), (_renamers.check_http_body, quick),
+                                  (check_path_params, quick)])
     # per program: option table + (2)
     for numeric in (False, True):
         param = "transport=grpc+rest" + (",rest-numeric-enums" if numeric else "")
